@@ -132,6 +132,39 @@ class Fin:
         P = self.P
         fn = P.fn(fname)
         self.ctx.fn(fn)
+        if fname == 'GC_Rem_Ptr' and pidx == 1:
+            # the registry's removal is judged by what it does, not by which of its returns it takes: evaluated on small registries
+            # (gcmodel) for a registered pointer, an unregistered one, a registry without slots, an unregistered pointer that stands on
+            # the sweep's pending list
+            from . import gcmodel
+            res = gcmodel.eval_registry(P)
+            s = site(fn)
+            all_ok = True
+            if res['unsup'].get('rem') and not res['bad'].get('rem'):
+                self.exits['GC_Rem_Ptr:registered'] = ('UNDECIDED', s, 'the removal leaves the evaluated fragment: ' + res['unsup']['rem'], None)
+                all_ok = False
+            elif res['bad'].get('rem'):
+                self.exits['GC_Rem_Ptr:registered'] = ('REFUTED', s, 'removing a registered pointer finalises it exactly once, strikes its entry and keeps every other entry findable', [res['bad']['rem']])
+                all_ok = False
+            else:
+                self.exits['GC_Rem_Ptr:registered:finalises'] = ('PROVED', s, 'removing a registered pointer finalises it exactly once (dealloc(destruct(p))), decrements the count and keeps every other '
+                                                                  'entry findable (%d steps evaluated on registries whose pointers collide and wrap)' % res['n'], None)
+            for scen, outcome, what in (('unregistered', ' / '.join(sorted(res['unregistered_rem'])) or None, 'a pointer that is not in the registry'),
+                                        ('no-slots', res['noslots_rem'], 'a pointer, while the registry has no slots'),
+                                        ('unregistered-but-pending', res['pending_rem'], 'a pointer that is not in the registry but stands on the sweep\'s pending list')):
+                if outcome is None:
+                    continue
+                if outcome.startswith('finalised'):
+                    self.exits['GC_Rem_Ptr:%s:finalises' % scen] = ('PROVED', s, 'removing %s finalises it once' % what, None)
+                elif outcome.startswith('nothing'):
+                    self.exits['GC_Rem_Ptr:%s:without-finalise' % scen] = ('REFUTED', s, 'removing %s returns without dealloc(destruct(object)): the object is never finalised%s' % (
+                        what, ' (its pending-list entry was cleared, so the sweep skips it too)' if 'struck' in outcome else ''), [outcome])
+                    all_ok = False
+                else:
+                    self.exits['GC_Rem_Ptr:%s' % scen] = ('UNDECIDED' if outcome.startswith('stuck') else 'REFUTED', s, 'removing %s: %s' % (what, outcome), None)
+                    all_ok = False
+            self.memo[key] = all_ok
+            return all_ok
         g = P.cfg(fn)
         base_eq = {('param', pidx)}
         for a in util.aliases_of_param(fn, pidx):
@@ -237,6 +270,8 @@ def check_del(P, ctx, ngc=False):
     for k, (verdict, s, what, detail) in sorted(F.exits.items()):
         if verdict == 'PROVED':
             ctx.proved(rule, k, s, what)
+        elif verdict == 'UNDECIDED':
+            ctx.undecided(rule, k, s, what, detail)
         else:
             ctx.refuted(rule, k, s, what, detail)
     ctx.floor(rule, 5 if not ngc else 3)
@@ -373,20 +408,10 @@ def check_sweep(P, ctx):
     # (6) pending-list protocol between the sweep and a re-entrant del: an entry that is still visible on the
     # pending list must not be finalised by both sides
     rp = P.fn('GC_Rem_Ptr')
-    gr = P.cfg(rp)
-    both = False
-    for path in gr.paths():
-        struck = fin = False
-        for ev in util.path_events(path):
-            if ev['t'] == 'write' and ir.top_nocast(ev['lhs'])[0] == 'idx' and util.mentions_field(ev['lhs'], 'freelist'):
-                struck = True
-            if ev['t'] == 'call' and ev['name'] == 'dealloc' and struck:
-                # finalised on a path that found the pointer on the pending list, before looking it up in the registry
-                pre_lookup = not any(e2['t'] == 'call' and e2['name'] in ('GC_Hash',) for e2 in util.path_events(path)[:util.path_events(path).index(ev)])
-                if pre_lookup:
-                    fin = True
-        if struck and fin:
-            both = True
+    # (what a deletion does for a pointer that stands on the pending list is evaluated on a small registry: gcmodel)
+    from . import gcmodel
+    pend = gcmodel.eval_registry(P).get('pending_rem') or ''
+    both = pend.startswith('finalised') or pend.startswith('other')
     cleared_first = False
     if len(fins) == 1:
         fnode, ev = fins[0]
